@@ -173,12 +173,12 @@ Proof.
   - intros Hd. exists k. rewrite Nat.sub_diag. split; [lia|]. split; [exact Hd|constructor].
 Qed.
 
-Lemma sem_suffix_plain a ns :
-  plain_complements a = true -> all_some (map node_of_atom a) = Some ns ->
+Lemma sem_suffix_closed a ns :
+  closed_complements a = true -> all_some (map node_of_atom a) = Some ns ->
   forall pos v k, RM (ns ++ [REndText]) pos v k <-> Denote a v /\ k = length v.
 Proof.
   intros Hp Hns pos v k.
-  rewrite (RM_denote_gen a ns (nodes_sem_plain a ns Hp Hns) [REndText] pos v k). split.
+  rewrite (RM_denote_gen a ns (nodes_sem_closed a ns Hp Hns) [REndText] pos v k). split.
   - intros (j & Hj & [Hd1 Hd2] & HR).
     inversion HR as [| | | | | |? ? ? HR']; subst. inversion HR'; subst.
     assert (Hjl : j = length v).
@@ -192,7 +192,7 @@ Qed.
 Lemma sem_suffix a ns :
   single_width a = true -> all_some (map node_of_atom a) = Some ns ->
   forall pos v k, RM (ns ++ [REndText]) pos v k <-> Denote a v /\ k = length v.
-Proof. intros Hsw. apply sem_suffix_plain. apply single_width_plain. exact Hsw. Qed.
+Proof. intros Hsw. apply sem_suffix_closed. apply single_width_closed. exact Hsw. Qed.
 
 Lemma rx_of_ast_nodes cfg a :
   rx_of_ast cfg a =
@@ -210,15 +210,8 @@ Proof. intros H. unfold compile_ast. rewrite H. reflexivity. Qed.
 (* ------------------------------------------------------------------ *)
 (* THEOREM: `case` patterns (both ends anchored)                        *)
 
-Lemma plain_closed a : plain_complements a = true -> closed_complements a = true.
-Proof.
-  unfold plain_complements, closed_complements. intros H. rewrite forallb_forall in *.
-  intros at_ Hin. specialize (H at_ Hin). destruct at_ as [c| | |b]; try reflexivity.
-  cbn [plain_complement closed_complement] in *. apply negb_true_iff in H. rewrite H. reflexivity.
-Qed.
-
-Theorem case_pattern_correct_plain p a s :
-  parse_pattern p = Some a -> plain_complements a = true ->
+Theorem case_pattern_correct_closed p a s :
+  parse_pattern p = Some a -> closed_complements a = true ->
   match compile case_config p with
   | COk b => pat_is_match case_config b s = true <-> Matches a s
   | CErr _ => valid_ast a = false
@@ -234,17 +227,17 @@ Proof.
     + apply str_eqb_eq in E. subst. cbn [is_some]. split; [intros _; split; reflexivity|reflexivity].
     + cbn [is_some]. split; [discriminate|]. intros [_ ->].
       assert (str_eqb l l = true) by (apply str_eqb_eq; reflexivity). congruence.
-  - pose proof (compile_ast_cases case_config a (plain_closed a Hpl) Hlit) as Hc.
+  - pose proof (compile_ast_cases case_config a Hpl Hlit) as Hc.
     rewrite rx_of_ast_nodes in Hc. cbn [case_config anchor_begin anchor_end] in Hc.
-    rewrite (valid_nodes_plain a Hpl) in *. unfold Matches. rewrite (valid_nodes_plain a Hpl).
+    rewrite (valid_nodes_closed a Hpl) in *. unfold Matches. rewrite (valid_nodes_closed a Hpl).
     destruct (all_some (map node_of_atom a)) as [ns|] eqn:Hns; cbn [omap] in Hc.
     + rewrite Hc. cbn [pat_is_match at_index case_config literal_period shortest_match andb app].
       rewrite find_start. cbn [is_some].
       destruct (bt false (ns ++ [REndText]) 0 s) as [k|] eqn:Eb; cbn [omap is_some].
-      * apply bt_sound in Eb. apply (sem_suffix_plain a ns Hpl Hns) in Eb as [Hd _].
+      * apply bt_sound in Eb. apply (sem_suffix_closed a ns Hpl Hns) in Eb as [Hd _].
         split; [intros _; split; [reflexivity|exact Hd]|reflexivity].
       * split; [discriminate|]. intros [_ Hd]. exfalso.
-        eapply (bt_none _ _ _ _ Eb). apply (sem_suffix_plain a ns Hpl Hns). split; [exact Hd|reflexivity].
+        eapply (bt_none _ _ _ _ Eb). apply (sem_suffix_closed a ns Hpl Hns). split; [exact Hd|reflexivity].
     + destruct Hc as [e ->]. reflexivity.
 Qed.
 
@@ -255,7 +248,7 @@ Theorem case_pattern_correct p a s :
   | CErr _ => valid_ast a = false
   | CUnsup | CFuel => False
   end.
-Proof. intros Hp Hsw. apply case_pattern_correct_plain; [exact Hp|apply single_width_plain; exact Hsw]. Qed.
+Proof. intros Hp Hsw. apply case_pattern_correct_closed; [exact Hp|apply single_width_closed; exact Hsw]. Qed.
 
 (* ------------------------------------------------------------------ *)
 (* prefix / suffix matches in terms of the translated regex             *)
